@@ -12,7 +12,8 @@ for line in open(os.path.join(root, 'RESULTS.txt')):
     note = re.sub(r'^(Change|CHANGE|change)\s*:?\s*', '', note)
     note = (note[:110] + '…') if len(note) > 110 else note
     first = first.replace(' no-failing-input-found', '').replace('xdoctest.', '')
-    first = re.sub(r'^[a-z_.]+:', '', first)
+    if not first.startswith('bounded:'):
+        first = re.sub(r'^[a-z_.]+:', '', first)
     if code == '1':
         how = '`%s`' % first[:120]
     elif code == '0':
